@@ -211,6 +211,10 @@ payload!(D4096, 4096, 4096, drop);
 payload!(D8192, 8192, 64, drop);
 payload!(D40000, 40000, 16, drop);
 payload!(DBig, 1048584, 8, drop);
+// same sizes as above with other alignments: blind pools must keep them apart
+payload!(D64A8, 64, 8, drop);
+payload!(D256A8, 256, 8, drop);
+payload!(B16A4, 16, 4, copy);
 
 /// Same layout, different type: opaque pools accept any `T` with the pool's layout.
 #[repr(transparent)]
@@ -287,12 +291,15 @@ macro_rules! with_menu_type {
             17 => $cb!($crate::D4096 $(, $arg)*),
             18 => $cb!($crate::D8192 $(, $arg)*),
             19 => $cb!($crate::D40000 $(, $arg)*),
-            _ => $cb!($crate::DBig $(, $arg)*),
+            20 => $cb!($crate::DBig $(, $arg)*),
+            21 => $cb!($crate::D64A8 $(, $arg)*),
+            22 => $cb!($crate::D256A8 $(, $arg)*),
+            _ => $cb!($crate::B16A4 $(, $arg)*),
         }
     };
 }
 
-pub const MENU_LEN: usize = 21;
+pub const MENU_LEN: usize = 24;
 
 pub fn menu_desc(idx: usize) -> TypeDesc {
     macro_rules! d {
